@@ -23,6 +23,8 @@ pub mod effectlog {
     {
         if s.len() == 0 { 0 } else { cnt(s.drop_last(), k) + (if kind_of(s.last()) == k { 1nat } else { 0nat }) }
     }
+    /// how many effects of kind `k` were added between `a` and `b`
+    pub open spec fn delta(a: Seq<Effect>, b: Seq<Effect>, k: Kind) -> int { cnt(b, k) - cnt(a, k) }
     pub broadcast proof fn lemma_cnt_push(s: Seq<Effect>, e: Effect, k: Kind)
         ensures #[trigger] cnt(s.push(e), k) == cnt(s, k) + (if kind_of(e) == k { 1nat } else { 0nat }),
     {
